@@ -445,7 +445,7 @@ func c20Run(c *C) {
 			"model": "per (set,name): FromCache with Debug or on a miss must return a never-seen template compiled from the current content (error if the loader fails or the content is broken, and then nothing is cached); a hit returns the cached one; CleanCache(name)/CleanCache() empty the entry"})
 		return
 	case porcupine.Unknown:
-		c.Fail("checker-timeout-inconclusive", D{"history_len": len(hist)})
+		c.Inconclusive(fmt.Sprintf("porcupine returned Unknown (timeout) on a history of %d operations", len(hist)))
 		return
 	}
 	c.Cover("porcupine_ok")
